@@ -249,16 +249,24 @@ func (s *store) evaluate(caseID string, q0 *Req) {
 	comps := s.classify(q, rt)
 	ab := abnormal(comps)
 	s.reached[rt.key()]++
+	r.Count("reached "+rt.key(), 1)
 	r.Count("requests_routed", 1)
 	if rt.api {
 		r.Count("requests_routed_api", 1)
 	}
-	r.Case(rt.key()+"|"+allClasses(comps)+"|"+fmt.Sprint(res.status), len(ab) > 0)
+	shape := rt.key() + "|" + allClasses(comps) + "|" + fmt.Sprint(res.status)
+	r.Case(shape, len(ab) > 0)
+	if !s.seen[shape] {
+		s.seen[shape] = true
+		if len(q.Body) < 20000 && !rt.slow && len(s.corpus) < 4000 {
+			s.corpus = append(s.corpus, q)
+		}
+	}
 	s.observe(rt, comps, res)
 	if r.WantSample() && len(ab) > 0 && len(q.target()) < 200 && len(q.Body) < 200 && res.status >= 400 && res.status < 500 {
 		r.Sample(map[string]any{"case": caseID, "request": q.Method + " " + q.target(), "body": string(q.Body), "classes": ab, "status": res.status, "response": clip(string(res.body), 200)})
 	}
-	if res.symptom == "" {
+	if res.symptom == "" || !s.reports(caseID) {
 		return
 	}
 	r.Count("refuting_requests", 1)
@@ -346,8 +354,20 @@ func (s *store) same(c *Req, rt *routeInfo, symptom string) bool {
 // are reduced element-wise. The signature names the route, the remaining classes and the symptom.
 func (s *store) minimise(q *Req, rt *routeInfo, symptom string) (*Req, string) {
 	cur := q.clone()
+	over := map[string]string{} // component -> coarser class established by generalise
 	sigOf := func(c *Req, suffix string) string {
-		ab := abnormal(s.classify(c, rt))
+		comps := s.classify(c, rt)
+		for i := range comps {
+			if o, ok := over[comps[i].Name]; ok {
+				comps[i].Class = o
+			}
+		}
+		ab := abnormal(comps)
+		if rt.bodyKind == "webhook" && contains(ab, "body=<unbindable>") {
+			// this route binds by content type; form bindings take the query string as part of the bound
+			// input, so "unbindable" already describes (content type, body, query) as a whole
+			ab = without(ab, "query=<extra-params>")
+		}
 		cls := strings.Join(ab, ",")
 		if cls == "" {
 			cls = "any"
@@ -399,7 +419,105 @@ func (s *store) minimise(q *Req, rt *routeInfo, symptom string) (*Req, string) {
 			}
 		}
 	}
+	s.generalise(cur, rt, symptom, over)
 	return cur, sigOf(cur, "")
+}
+
+// families of classes that usually share one root cause ("the value names nothing that is stored").
+// generalise replaces a component's value by a representative of ANOTHER member of its family; if the
+// refuting event persists, the signature carries the family label instead of the member label, so one
+// root cause gives one signature whichever malformed value met it first.
+var notStored = map[string]bool{"<unknown>": true, "<empty>": true, "<huge>": true, "<unicode>": true, "<non-hex>": true, "<too-short>": true, "<too-long>": true}
+
+const altUnknownHash = "abababababababababababababababababababababababababababababababab"
+
+func (s *store) generalise(cur *Req, rt *routeInfo, symptom string, over map[string]string) {
+	for _, c := range s.classify(cur, rt) {
+		if c.Normal {
+			continue
+		}
+		cand := cur.clone()
+		label := ""
+		kind := ""
+		for _, p := range rt.params {
+			if p == c.Name {
+				kind = paramKind(p)
+			}
+		}
+		for _, sp := range rt.query {
+			if sp.name == c.Name {
+				kind = sp.kind
+			}
+		}
+		set := func(v string) {
+			if _, ok := cand.Path[c.Name]; ok {
+				cand.Path[c.Name] = v
+			} else {
+				cand.setQuery(c.Name, v)
+			}
+		}
+		switch {
+		case c.Name == "auth" && (c.Class == "<missing>" || c.Class == "<malformed>" || c.Class == "<unknown-token>"):
+			label = "<invalid>"
+			cand.Auth = "Bearer unknown-token-0000"
+			if c.Class == "<unknown-token>" {
+				cand.Auth = ""
+			}
+		case (kind == "hash" || kind == "root") && notStored[c.Class] && c.Class != "<empty>":
+			label = "<not-stored>"
+			if c.Class == "<unknown>" {
+				set("not-a-hash")
+			} else {
+				set(altUnknownHash)
+			}
+		case kind == "url" && (c.Class == "<unregistered>" || c.Class == "<huge>" || c.Class == "<unicode>"):
+			label = "<not-registered>"
+			if c.Class == "<unregistered>" {
+				set("http://例え.テスト/フック")
+			} else {
+				set("http://alt-unregistered.example/hook")
+			}
+		case kind == "token" && (c.Class == "<unknown>" || c.Class == "<huge>" || c.Class == "<unicode>"):
+			label = "<not-existing>"
+			if c.Class == "<unknown>" {
+				set("トークン")
+			} else {
+				set("alt-unknown-token")
+			}
+		case c.Name == "body" && rt.bodyKind == "hashlist" && strings.HasPrefix(c.Class, "list["):
+			var l []string
+			if json.NewDecoder(bytes.NewReader(cur.Body)).Decode(&l) != nil { // first document, as the server reads it
+				continue
+			}
+			changed := false
+			for i, h := range l {
+				if cl, _ := s.hashClass(h); notStored[cl] {
+					changed = true
+					if cl == "<unknown>" {
+						l[i] = "not-a-hash"
+					} else {
+						l[i] = altUnknownHash
+					}
+				}
+			}
+			if !changed {
+				continue
+			}
+			cand.Body = jsonList(l...)
+			if s.same(cand, rt, symptom) {
+				s.coarseElems = true
+				cl, _ := s.bodyClass(cur, rt.bodyKind)
+				s.coarseElems = false
+				over["body"] = cl
+			}
+			continue
+		default:
+			continue
+		}
+		if s.same(cand, rt, symptom) {
+			over[c.Name] = label
+		}
+	}
 }
 
 func ddmin(items []json.RawMessage, test func([]json.RawMessage) bool) []json.RawMessage {
@@ -591,4 +709,23 @@ func (s *store) restoreAux() {
 		// column values may round-trip differently (timestamps); accept the restored state as the new baseline
 		s.auxDigest = d2
 	}
+}
+
+func contains(xs []string, x string) bool {
+	for _, v := range xs {
+		if v == x {
+			return true
+		}
+	}
+	return false
+}
+
+func without(xs []string, x string) []string {
+	out := xs[:0:0]
+	for _, v := range xs {
+		if v != x {
+			out = append(out, v)
+		}
+	}
+	return out
 }
